@@ -415,6 +415,9 @@ def check_result(cmd, left, right, res, before):
                   & (np.abs(np.log10(np.abs(lv) + 1e-320)) < 60) & (np.abs(np.log10(np.abs(rv) + 1e-320)) < 60)
                   & (le < 1e60) & (re_ < 1e60) & ((le > 1e-60) | (le == 0)) & ((re_ > 1e-60) | (re_ == 0)))
             rel = np.abs(plain) * np.sqrt((le / lv) ** 2 + (re_ / rv) ** 2)
+            # the code squares the absolute terms: outside 1e-150 .. 1e150 those squares leave the range of binary64
+            # although the error itself is representable (overflow is in the trusted base, not in the property)
+            ok = ok & np.isfinite(rel) & (rel < 1e150) & ((rel > 1e-150) | (rel == 0))
             good = np.isclose(err, rel, rtol=1e-9, atol=0) | ~ok
             out['err_rule'] = bool(good.all())
             out['rel_cells'] = int(ok.sum())
